@@ -6,6 +6,7 @@ package main
 
 import (
 	"encoding/json"
+	"errors"
 	"fmt"
 	"strings"
 	"time"
@@ -201,9 +202,17 @@ func (w *c11world) apply(o c11op) (pan string) {
 		case "WithColor":
 			add(l.WithColorMode(args...), applyColor(args))
 		case "NewJSON":
-			add(l.New(name, slog.WithJSONMode(args...)), applyJSON(cur, args))
+			if (o.Target+o.Args+len(w.loggers))%2 == 1 {
+				add(l.New(slog.WithJSONMode(args...)), applyJSON(cur, args)) // an anonymous child: the option comes first
+			} else {
+				add(l.New(name, slog.WithJSONMode(args...)), applyJSON(cur, args))
+			}
 		case "NewColor":
-			add(l.New(name, slog.WithColorMode(args...)), applyColor(args))
+			if (o.Target+o.Args+len(w.loggers))%2 == 1 {
+				add(l.New(slog.WithColorMode(args...)), applyColor(args))
+			} else {
+				add(l.New(name, slog.WithColorMode(args...)), applyColor(args))
+			}
 		case "New":
 			add(l.New(name), cur)
 		}
@@ -257,7 +266,7 @@ func (w *c11world) check(probe bool, first ...int) (clause, detail string) {
 				if sev == slog.InfoLevel {
 					msg = "probe\nwith a second line\nand a third\n" // coloured records keep per-record line state in the pooled context
 				}
-				l.WriteThru(bg, sev, fixedTime, 0, msg, slog.Attrs{slog.Int("k", 1)})
+				l.WriteThru(bg, sev, fixedTime, 0, msg, slog.Attrs{slog.Int("k", 1), slog.NewAttr("err", errors.New("boom"))})
 				if len(w.rec.events) != 1 {
 					return "record-shape", fmt.Sprintf("logger L%d: %d writes for the probe", i, len(w.rec.events))
 				}
